@@ -1,26 +1,15 @@
 /-
   Driver/Registry.lean — the table model-name × configuration-name → executable model.
-  Every protocol model registers its scenario configurations here.
+  One line per model; each model's entries live in Driver/Entries/<Model>.lean.
 -/
-import UnifexModel.Core.Admit
-import UnifexModel.Core.Reflect
-import UnifexModel.Proto.StopSource
+import UnifexModel.Driver.Entry
+import UnifexModel.Driver.Entries.StopSource
 
 namespace Unifex.Driver
-open Unifex.Core
 
-structure Entry where
-  admitH : List String → Verdict
-  states : Unit → Nat
-
-def mkEntry {σ lbl : Type} [DecidableEq σ] (sys : LSys σ lbl) (obs : lbl → Option String)
-    (final : σ → Bool) : Entry :=
-  { admitH := fun h => admits sys obs final h
-    states := fun _ => (tauClosure sys (fun _ => none) 100000 [sys.init] [sys.init]).length }
-
-def table : List (String × List (String × Entry)) :=
-  [ ("stopsource", Proto.StopSource.configs.map (fun (n, c) =>
-      (n, mkEntry (Proto.StopSource.sys c) Proto.StopSource.obsOf (Proto.StopSource.final c)))) ]
+def table : List ModelEntries :=
+  [ Entries.stopsource
+  ]
 
 def lookup (m c : String) : Option Entry :=
   match table.lookup m with
